@@ -73,6 +73,56 @@ impl LmSpec {
         }
         m
     }
+    pub fn from_rooc(lm: &LinearModel) -> LmSpec {
+        let inf = |f: f64| if f.is_finite() { Some(f) } else { None };
+        LmSpec {
+            vars: lm
+                .variables()
+                .iter()
+                .map(|n| {
+                    let t = match *lm.domain().get(n).unwrap().get_type() {
+                        VariableType::Boolean => VSpec::Bool,
+                        VariableType::IntegerRange(a, b) => VSpec::Int(a, b),
+                        VariableType::Real(a, b) => VSpec::Real(inf(a), inf(b)),
+                        VariableType::NonNegativeReal(a, b) => VSpec::NonNeg(a, inf(b)),
+                    };
+                    (n.clone(), t)
+                })
+                .collect(),
+            rows: lm
+                .constraints()
+                .iter()
+                .map(|r| RowSpec {
+                    name: r.name(),
+                    a: r.coefficients().clone(),
+                    rel: r.constraint_type().to_string(),
+                    b: r.rhs(),
+                })
+                .collect(),
+            obj: lm.objective().clone(),
+            offset: lm.objective_offset(),
+            sense: match lm.optimization_type() {
+                OptimizationType::Min => "min",
+                OptimizationType::Max => "max",
+                OptimizationType::Satisfy => "satisfy",
+            }
+            .to_string(),
+        }
+    }
+    /// "wide" when the non-zero matrix / objective coefficients span a factor >= 50: the
+    /// structural precondition of the tableau simplex's known tolerance problem.
+    pub fn coefficient_range(&self) -> &'static str {
+        let mut lo = f64::INFINITY;
+        let mut hi: f64 = 0.0;
+        for v in self.rows.iter().flat_map(|r| r.a.iter()).chain(self.obj.iter()) {
+            let a = v.abs();
+            if a > 0.0 {
+                lo = lo.min(a);
+                hi = hi.max(a);
+            }
+        }
+        if hi > 0.0 && hi / lo >= 50.0 { "wide" } else { "plain" }
+    }
     pub fn all_continuous(&self) -> bool {
         self.vars.iter().all(|(_, t)| t.is_continuous())
     }
@@ -89,6 +139,7 @@ pub struct LpGenOpts {
     pub allow_satisfy: bool,
     pub named_rows: bool,
     pub wide_coeffs: bool,
+    pub moderate_coeffs: bool,
 }
 
 impl Default for LpGenOpts {
@@ -100,11 +151,12 @@ impl Default for LpGenOpts {
             allow_satisfy: true,
             named_rows: true,
             wide_coeffs: false,
+            moderate_coeffs: false,
         }
     }
 }
 
-fn coef(rng: &mut ChaCha8Rng, wide: bool) -> f64 {
+fn coef(rng: &mut ChaCha8Rng, wide: bool, moderate: bool) -> f64 {
     let pool: [f64; 15] = [
         0.0, 0.0, 0.0, 1.0, 1.0, -1.0, 2.0, -2.0, 3.0, -3.0, 0.5, -0.5, 1.5, 4.0, -5.0,
     ];
@@ -113,6 +165,9 @@ fn coef(rng: &mut ChaCha8Rng, wide: bool) -> f64 {
             1e-9, -1e-9, 1e-6, -1e-6, 3e-7, 0.1, -0.3, 1e9, -1e9, 123456.789, -7e5, 1.0 / 3.0,
         ];
         *wide_pool.choose(rng).unwrap()
+    } else if moderate && rng.gen_bool(0.2) {
+        let pool2: [f64; 10] = [0.1, -0.3, 1.0 / 3.0, 0.01, -0.05, 12.0, -25.0, 100.0, 7.5, -0.125];
+        *pool2.choose(rng).unwrap()
     } else {
         *pool.choose(rng).unwrap()
     }
@@ -188,7 +243,7 @@ pub fn gen_lm(rng: &mut ChaCha8Rng, o: &LpGenOpts) -> LmSpec {
     let mode = rng.gen_range(0..10); // 0..6 planted feasible, 7 random rhs, 8 contradiction, 9 degenerate
     let mut rows = vec![];
     for i in 0..m {
-        let mut a: Vec<f64> = (0..n).map(|_| coef(rng, o.wide_coeffs)).collect();
+        let mut a: Vec<f64> = (0..n).map(|_| coef(rng, o.wide_coeffs, o.moderate_coeffs)).collect();
         if rng.gen_bool(0.08) {
             a = vec![0.0; n]; // empty row
         }
@@ -256,7 +311,7 @@ pub fn gen_lm(rng: &mut ChaCha8Rng, o: &LpGenOpts) -> LmSpec {
     let obj: Vec<f64> = if sense == "satisfy" {
         vec![0.0; n]
     } else {
-        (0..n).map(|_| coef(rng, o.wide_coeffs)).collect()
+        (0..n).map(|_| coef(rng, o.wide_coeffs, o.moderate_coeffs)).collect()
     };
     let offset = if sense != "satisfy" && rng.gen_bool(0.3) {
         [1.0, -2.5, 10.0, 0.25][rng.gen_range(0..4)]
